@@ -2006,18 +2006,6 @@ impl TypeChecker {
                         fields_in_range(resolved_fields, self.types@.len() as int), //# C07 outer_statement.loop4.aux3
                         vstd::std_specs::btree::key_obeys_cmp_spec::<String>(), //# C07 outer_statement.loop4.aux4
 //@   endloop
-//@   ghost before
-//@| let enum_ty = self.variables[*var].ty;
-                proof { lemma_var_valid(self, *var as int); }
-//@   endghost
-//@   ghost before
-//@| let blob_ty = self.variables[*var].ty;
-                proof { lemma_var_valid(self, *var as int); }
-//@   endghost
-//@   ghost before
-//@| self.unify(*span, ctx, self.variables[*var].ty, ty)?;
-                proof { lemma_var_valid(self, *var as int); }
-//@   endghost
 //@ end
 
 //@ fn sylt-compiler/src/typechecker.rs solve
